@@ -53,6 +53,17 @@ func (z *Interpreter) GetVersion() string {
 	return z.version
 }
 
+// Fork - a new interpreter with the same configuration (version, external libs) but no loaded
+// program: code that serves several requests from one configured interpreter (HTTP handlers)
+// loads and executes each request's program on its own fork, so that concurrent requests
+// cannot see each other's program source.
+func (z *Interpreter) Fork() *Interpreter {
+	return &Interpreter{
+		version:      z.version,
+		externalLibs: z.externalLibs,
+	}
+}
+
 // /// set functions /////
 func (z *Interpreter) SetMainServer(server ZnServer, handler http.Handler) *Interpreter {
 	z.mainServer = server
